@@ -28,6 +28,7 @@ class Ctx:
         self.eq_seen = set()
         self.havocked = False
         self.val_syms = []
+        self.awaits = []
 
     def fresh(self, sort, hint="v"):
         self.n += 1
@@ -685,6 +686,8 @@ class Interp:
         self.direct_calls = []     # user callables invoked without awaitify on the impl side
         self.unawaited = []
         self.await_gaps = []
+        self.neutral_calls = []
+        self.flavour_tests = []
 
     # -- calls ------------------------------------------------------------
     def call(self, fn, args, kwargs, site=None):
@@ -806,6 +809,7 @@ class Interp:
             raise PyRaise(payload)
         ua = UserAwaitable((kind, payload), ctx.evseq, fn)
         self.unawaited.append(ua)
+        self.neutral_calls.append((fn.name, site))
         return ua
 
     def instantiate(self, cls, args, kwargs):
@@ -1790,6 +1794,8 @@ class Frame:
 
     def e_Await(self, e):
         aw = yield from self.ev(e.value)
+        if self.i.side == "impl":
+            self.ctx.awaits.append((self.fn.module.modname, e.lineno, await_kind(aw)))
         return (yield from self.i.await_(aw, site_of(e)))
 
     def e_Yield(self, e):
@@ -2058,6 +2064,21 @@ class Frame:
                 yield from body()
         finally:
             self.hidden.pop(hk, None)
+
+
+def await_kind(aw):
+    """C17: what the library awaits - its own coroutines / generator methods, or something the user supplied"""
+    if isinstance(aw, Coroutine):
+        return "library coroutine"
+    if isinstance(aw, (UserAwaitable, EnvAwaitable, Opaque)):
+        return "user awaitable"
+    if isinstance(aw, Pending):
+        if aw.kind.startswith("gen_") or aw.kind == "native_aclose":
+            return "library generator method"
+        return "user awaitable"
+    if isinstance(aw, Obj) and aw.cls is not None and aw.cls.lookup("__await__") is not None:
+        return "library awaitable object"
+    return "other:" + type(aw).__name__
 
 
 def _contains_await(node):
